@@ -200,6 +200,11 @@ def cases_for(tier):
         for node in nodes[:6]:
             cases.append(('double', ('commented', ('trailing', node, txt), 'outer ' + txt), dict(width=r.choice(widths))))
             cases.append(('double', ('trailing', ('commented', node, txt), 'tr ' + txt), dict(width=r.choice(widths))))
+            # the same kind of wrapper twice and three times on one node
+            cases.append(('double', ('commented', ('commented', node, txt), 'outer ' + txt), dict(width=r.choice(widths))))
+            cases.append(('double', ('trailing', ('trailing', node, txt), 'outer ' + txt), dict(width=r.choice(widths))))
+            cases.append(('double', ('list', [('trailing', ('commented', ('trailing', node, txt), 'mid'), 'outer ' + txt)]),
+                          dict(width=r.choice(widths))))
     # key sorting must look through the comment wrapper of a key
     for txt in texts[:4]:
         for keys in ([2, 1, 3], [3, 2, 1], [1, 3, 2]):
